@@ -54,13 +54,29 @@ def analyse(P, R, key, cap_attr, thr_attr, mstep_names, rule="LOOP"):
     step = None
     init = None
     passes_expr = None
+    def _is_cap(e, depth=0):
+        """`self.<cap>` itself, or a local bound once to it / to `self.<cap> if <test on it> else None` (a normalised cap)"""
+        if _self_attr(e, me) and e.attr == cap_attr:
+            return True
+        if isinstance(e, ast.Name) and depth < 3:
+            rd_ = [d for d in du.reaching(loop, e.id) if not _inside(d.stmt, loop)]
+            if len(rd_) == 1 and rd_[0].how == "assign" and rd_[0].value is not None:
+                v_ = rd_[0].value
+                if isinstance(v_, ast.IfExp):
+                    arms = [v_.body, v_.orelse]
+                    caps = [a_ for a_ in arms if _is_cap(a_, depth + 1)]
+                    nones = [a_ for a_ in arms if isinstance(a_, ast.Constant) and a_.value is None]
+                    return len(caps) == 1 and len(nones) == 1 and any(_self_attr(x, me) and x.attr == cap_attr for x in ast.walk(v_.test))
+                return _is_cap(v_, depth + 1)
+        return False
+
     if isinstance(loop, ast.While):
         t = loop.test
         cmp_ = None
         none_ok = False
         parts = t.values if isinstance(t, ast.BoolOp) and isinstance(t.op, ast.Or) else [t]
         for p_ in parts:
-            if isinstance(p_, ast.Compare) and len(p_.ops) == 1 and isinstance(p_.ops[0], ast.Is) and const_value(p_.comparators[0]) is None and p_.comparators[0].value is None and _self_attr(p_.left, me) and p_.left.attr == cap_attr:
+            if isinstance(p_, ast.Compare) and len(p_.ops) == 1 and isinstance(p_.ops[0], ast.Is) and const_value(p_.comparators[0]) is None and p_.comparators[0].value is None and _is_cap(p_.left):
                 none_ok = True
             elif isinstance(p_, ast.Compare) and len(p_.ops) == 1:
                 cmp_ = p_
@@ -71,11 +87,11 @@ def analyse(P, R, key, cap_attr, thr_attr, mstep_names, rule="LOOP"):
             R.violation(rule + ".L1", key, f"while {src(t)}", f"loop condition does not compare the step counter with self.{cap_attr}: the iteration cap is not enforced", loop.lineno)
             return None
         l, op, r = cmp_.left, cmp_.ops[0], cmp_.comparators[0]
-        if _self_attr(l, me) and l.attr == cap_attr and isinstance(r, ast.Name):
+        if _is_cap(l) and isinstance(r, ast.Name) and not _is_cap(r):
             # cap > step
             l, r = r, l
             op = {ast.Gt: ast.Lt(), ast.GtE: ast.LtE()}.get(type(op), op)
-        if not (isinstance(l, ast.Name) and _self_attr(r, me) and r.attr == cap_attr):
+        if not (isinstance(l, ast.Name) and _is_cap(r)):
             R.violation(rule + ".L1", key, f"while {src(t)}", f"loop condition is not `step < self.{cap_attr}`: `{src(cmp_)}`", loop.lineno)
             return None
         R.check(none_ok, rule + ".L1-nocap", key, f"while {src(t)}", "runs unbounded when the cap is None", f"`self.{cap_attr} is None or ...` is missing: a machine configured without iteration cap fails or never trains", loop.lineno)
